@@ -214,7 +214,7 @@ Proof.
     + inversion H; subst; clear H; simpl; plain_leaf Inv.
     + destruct (Nat.eqb arg 0); [|unfold alloc in H]; inversion H; subst; clear H; simpl; plain_leaf Inv.
     + destruct (Nat.eqb arg 0).
-      * destruct (cache_get (r_cache (getr s r)) key); inversion H; subst; clear H; simpl; plain_leaf Inv.
+      * destruct (cache_get (r_cache (getr s r)) key) as [child|]; [destruct (Nat.eqb child c); [discriminate|]|]; inversion H; subst; clear H; simpl; plain_leaf Inv.
       * destruct (Nat.eqb arg 2); [inversion H; subst; clear H; simpl; plain_leaf Inv|].
         destruct (r_cancel (getr s r)); [|discriminate]. eapply Fail; eauto.
     + destruct (Nat.eqb arg 0); [inversion H; subst; clear H; simpl; plain_leaf Inv | eapply Fail; eauto].
